@@ -429,7 +429,8 @@ class TorchBackend:
                     return self._numpy_ufunc(self._to_numpy(a), self._to_numpy(b))
                 raise
 
-        def reduce(self, a, axis=None):
+        def reduce(self, a, axis=0):
+            # like a NumPy ufunc, reduce along the first axis unless told otherwise
             if self._numpy_ufunc and self._is_object_array(a):
                 return self._numpy_ufunc.reduce(self._to_numpy(a), axis=axis)
             try:
@@ -473,7 +474,7 @@ class TorchBackend:
             return torch.stack(result)
         return self.TorchUfunc(
             self, torch.subtract,
-            lambda a, dim=None: a[0] - torch.sum(a[1:]) if dim is None else None,
+            lambda a, dim=None: a[0] - torch.sum(a[1:]) if dim is None else (a[0] - torch.sum(a[1:], dim=0) if dim == 0 else None),
             cumulative_subtract,
             numpy.subtract
         )
@@ -490,6 +491,11 @@ class TorchBackend:
             if dim is None:
                 result = a.flatten()[0]
                 for x in a.flatten()[1:]:
+                    result = result / x
+                return result
+            if dim == 0:
+                result = a[0]
+                for x in a[1:]:
                     result = result / x
                 return result
             return None
